@@ -357,6 +357,46 @@ def oracle_seeds(ctx, vals, seeds):
 # known findings
 # ---------------------------------------------------------------------------
 
+class _BoolKey:
+    """stands for deephash.BoolObj: equal only to the same bool, never to a number"""
+
+    def __init__(self, b):
+        self.b = b
+
+    def __eq__(self, other):
+        return isinstance(other, _BoolKey) and other.b == self.b
+
+    def __hash__(self):
+        return hash(("_BoolKey", self.b))
+
+
+def memo_alias(*vals):
+    """True when two objects that DeepHash would use as keys of its table are == but not identical in type/content:
+    numbers of different types, hashable tuples / frozensets containing such (bools at top level are BoolObj: no alias)"""
+    seen = {}
+
+    def key(x):
+        k = _BoolKey(x) if isinstance(x, bool) else x
+        try:
+            hash(k)
+        except TypeError:
+            return
+        seen.setdefault(k, set()).add(repr(values.canon_sorted(x)))
+
+    def walk(x):
+        key(x)
+        if isinstance(x, (list, tuple, set, frozenset)):
+            for y in x:
+                walk(y)
+        elif isinstance(x, dict):
+            for k, y in x.items():
+                walk(k)
+                walk(y)
+    for v in vals:
+        walk(v)
+    return any(len(c) > 1 for c in seen.values())
+
+
 def _vals_of_case(case):
     vs = [from_repr(case["value"])]
     if case.get("other"):
@@ -368,7 +408,7 @@ def _k2(case):
     """memo aliasing: the failing check involves the table (always) and two atoms that are == but of different type co-occur"""
     if case.get("kind") not in ("dict_order", "set_order", "seq_order", "shared_table", "hash_seed", "copy"):
         return False
-    return values.contains_alias(*_vals_of_case(case))
+    return memo_alias(*_vals_of_case(case))
 
 
 def _k3(case):
